@@ -17,6 +17,19 @@ CHECKS = {
     ),
 }
 
+CHECKS["C02"] = dict(
+    engine="E1 EnvExplorer",
+    technique="explicit-state exhaustive BFS of env.step (every reachable state incl. post-finish padding states) with invariant checking; real decoding loops run on mixed batches",
+    text="Every reachable state (all mask-admitted prefixes, plus padding chains after finishing, as long as a concrete slower batch-mate exists) of every alphabet instance of every environment is visited; invariants: unfinished row has an action, finished row stays finished and steppable, depth within the step bound; BFS termination shows absence of cycles; rollout() loops on mixed batches finish below the bound.",
+    ref="DESIGN.md section 4 C02",
+)
+CHECKS["C03"] = dict(
+    engine="E1 EnvExplorer",
+    technique="explicit-state exhaustive BFS of env.step; every leaf's reward compared with a float64 objective recomputed from instance + actions (0/1/2 padding steps)",
+    text="For every complete mask-admitted sequence of every alphabet instance in every reward mode the library reward equals the independently recomputed objective, also after post-finish padding steps; violations are confirmed on a solo (batch size 1) replay before being reported.",
+    ref="DESIGN.md section 4 C03",
+)
+
 NOT_YET = {}
 
 
